@@ -1652,6 +1652,17 @@ class HTMLDependency(MetadataNode):
         else:
             self.head = TagList(head)
 
+    def __copy__(self) -> "HTMLDependency":
+        # As noted for MetadataNode, a copy (as made by `.tagify()`) must be completely
+        # independent of the original, so the mutable fields (source, script,
+        # stylesheet, meta, head) are copied as well instead of being shared.
+        cls = self.__class__
+        cp = cls.__new__(cls)
+        cp.__dict__.update(
+            {key: deepcopy(value) for key, value in self.__dict__.items()}
+        )
+        return cp
+
     def source_path_map(
         self, *, lib_prefix: Optional[str] = "lib", include_version: bool = True
     ) -> SourcePathMapping:
